@@ -20,6 +20,7 @@ THEOREMS = [
     "Gen.C15.wrapper_transparent_partial", "Gen.C15.wrapper_drops_return_value",
     "Gen.C15.wrapFixed_transparent",
 ]
+SKELETON_TARGETS = {"Gen.C15.skeleton_E15b (inline_callbacks = inlineCallbacks . eliot_friendly_generator_function)": "Eliot.Properties.C15Skel"}
 GENERATED_OBLIGATIONS = ["Generated.genWrapper = Gen.C15.assumedWrapper (E15: shape of the wrapper loop; Gen.keepsReturn follows its `stop` field)"]
 RULE = ("bodies: random well-bracketed instruction lists (enter/exit of own actions spanning yields, log=observe current_action, "
         "yield v / yield last-received, try/catch(Thrown | bare), raise (application exceptions, GeneratorExit, KeyboardInterrupt / SystemExit / CancelledError), return v, resume of a higher-numbered generator with send/throw/close); "
@@ -29,7 +30,9 @@ RULE = ("bodies: random well-bracketed instruction lists (enter/exit of own acti
         "surrounding actions; a quarter of the resumptions is made from another contextvars.Context than the driver's own "
         "(copy_context().run, Context().run, another thread); non-trivial = some generator is resumed from >= 2 different driver actions and observes its context; "
         "distinct by canonical hash")
-TRUSTED = ["CPython's generator protocol and contextvars (Context.run, copy_context, Token) are modelled (Gen.proto, World), validated by the 3-way comparison",
+TRUSTED = ["Twisted's inlineCallbacks is the driver of eliot.twisted.inline_callbacks and is not modelled; skeleton E15b checks that it is handed "
+           "the decorated generator, one real run goes through harness/stubs_inline (a stand-in, not Twisted)",
+           "CPython's generator protocol and contextvars (Context.run, copy_context, Token) are modelled (Gen.proto, World), validated by the 3-way comparison",
            "the body interpreter (one real generator function that walks the instruction list) stands for arbitrary generator bodies"]
 ASSUMPTIONS = ["application exceptions thrown into generators are ordinary Exception instances (not StopIteration / GeneratorExit objects thrown by hand)",
                "a generator body only resumes generators with a higher index (no re-entrant resumption of an executing generator)",
@@ -549,6 +552,100 @@ def evaluate(ctx, cases, tag):
             ctx.traces += 1
 
 
+# ---- eliot.twisted.inline_callbacks, the real function, over a stand-in for Twisted ----------------------
+
+def run_inline_callbacks():
+    """One real-code run of `eliot.twisted.inline_callbacks` (harness/stubs_inline carries a minimal Deferred / Failure /
+    inlineCallbacks; Twisted itself is not installed): a generator with an action across two yields whose Deferreds are
+    fired later, from other action contexts.  -> list of (what, ok) checks."""
+    import contextvars
+    import sys
+    from pathlib import Path
+
+    stub = str(Path(__file__).resolve().parent.parent / "stubs_inline")
+
+    def purge():
+        gone = {}
+        for k in list(sys.modules):
+            if k == "twisted" or k.startswith("twisted.") or k == "eliot.twisted":
+                gone[k] = sys.modules.pop(k)
+        return gone
+
+    saved = purge()
+    sys.path.insert(1, stub)
+    checks = []
+    try:
+        def scenario():
+            import eliot.twisted as et
+            from eliot import start_action, current_action
+            from twisted.internet.defer import Deferred, succeed
+            from twisted.python.failure import Failure
+
+            err = ValueError("boom")
+            d1, d2 = Deferred(), Deferred()
+            seen = {}
+
+            def work(tag):
+                seen["start"] = current_action()
+                with start_action(action_type="inner") as a:
+                    seen["inner"] = a
+                    x = yield d1
+                    seen["after1"] = (current_action(), x)
+                    try:
+                        yield d2
+                    except ValueError as e:
+                        seen["caught"] = (current_action(), e)
+                    z = yield 5
+                    seen["plain"] = (current_action(), z)
+                seen["after_with"] = current_action()
+                y = yield succeed(7)
+                return ("ret", tag, x, y)
+
+            decorated = et.inline_callbacks(work)
+            with start_action(action_type="outer") as outer:
+                res = decorated("t")
+                checks.append(("the caller's current action is unchanged by starting the generator", current_action() is outer))
+            checks.append(("the generator first ran in the context it was started from", seen.get("start") is outer))
+            checks.append(("it is suspended at its first pending Deferred", not res.called and "after1" not in seen))
+            with start_action(action_type="other") as other:
+                d1.callback(11)
+                checks.append(("firing a Deferred from inside another action leaves that action current", current_action() is other))
+            a = seen.get("inner")
+            checks.append(("after the first Deferred fired the body is in its own action and got the result",
+                           seen.get("after1") is not None and seen["after1"][0] is a and seen["after1"][1] == 11))
+            d2.errback(Failure(err))
+            checks.append(("firing from outside any action leaves no action current", current_action() is None))
+            checks.append(("a failed Deferred is thrown in as the same exception object, in the body's own action",
+                           seen.get("caught") is not None and seen["caught"][0] is a and seen["caught"][1] is err))
+            checks.append(("a yielded non-Deferred value comes straight back", seen.get("plain") is not None and seen["plain"][0] is a and seen["plain"][1] == 5))
+            checks.append(("after its own action the body is back in the action it was started in", seen.get("after_with") is outer))
+            checks.append(("the Deferred of the decorated function fires with the generator's return value",
+                           res.called and res.result == ("ret", "t", 11, 7)))
+
+        try:
+            contextvars.Context().run(scenario)
+        except BaseException as e:  # noqa - an observation
+            checks.append(("eliot.twisted.inline_callbacks ran without raising (%s: %s)" % (type(e).__name__, str(e)[:80]), False))
+    finally:
+        if stub in sys.path:
+            sys.path.remove(stub)
+        purge()
+        sys.modules.update(saved)
+    return checks
+
+
+def evaluate_inline_callbacks(ctx):
+    case = dict(kind="inline_callbacks")
+    checks = run_inline_callbacks()
+    ctx.case(case, nontrivial=True, tags=["inline_callbacks"])
+    for what, ok in checks:
+        if not ok:
+            ctx.violation("eliot.twisted.inline_callbacks: NOT (%s)" % what, case, key={"component": "inline-callbacks"})
+            break
+    if len(checks) < 10 and all(ok for _w, ok in checks):
+        ctx.violation("eliot.twisted.inline_callbacks: the scenario stopped after %d checks" % len(checks), case, key={"component": "inline-callbacks"})
+
+
 FIXED_BODIES = [
     # an action spanning two yields, echo of the sent value, catch-and-continue, a return value
     [["enter", 11], ["log", 1], ["try"], ["yield", 1], ["log", 2], ["yieldLast"], ["catch", False], ["log", 3], ["yield", 5], ["endcatch"],
@@ -587,6 +684,7 @@ CORPUS = [
 
 
 def run(ctx):
+    evaluate_inline_callbacks(ctx)
     evaluate(ctx, CORPUS, "corpus")
     rng = ctx.rng("gen")
     n = ctx.budget(400, 20000)
@@ -612,6 +710,11 @@ def run(ctx):
 
 def replay(ctx, obj):
     case = obj.get("case") or {}
+    if case.get("kind") == "inline_callbacks":
+        for what, ok in run_inline_callbacks():
+            print("ok  " if ok else "FAIL", what)
+        evaluate_inline_callbacks(ctx)
+        return
     c = dict(gens=case["gens"], script=case["script"])
     # reference: the undecorated generators driven from the driver's own Context only
     plain = run_real(dict(c, script=[s[:3] for s in c["script"]]), False)
